@@ -178,13 +178,13 @@ structure CRel (δ skip : Nat) (cs cw : Common) : Prop where
 /-- how `ch_sequence_matching_start` of the two runs may relate -/
 inductive SeqMode
   | none    -- `none` in both runs
-  | stale   -- `none` in the whole run, anything in the split run (state entry after a `needMore` break)
+  | stale   -- anything (state entry after a `needMore` break; overwritten before it is read)
   | inSeq   -- set to the consumed byte in both runs
   deriving DecidableEq
 
 def SeqRel (δ : Nat) (np : Nat) : SeqMode → Option Nat → Option Nat → Prop
   | .none, a, b => a = none ∧ b = none
-  | .stale, _, b => b = none
+  | .stale, _, _ => True
   | .inSeq, a, b => ∃ p, a = some p ∧ b = some (p + δ) ∧ p + 1 = np
 
 def RegsRel (δ d : Nat) (ab : Ab) (sm : SeqMode) (np : Nat) : Regs → Regs → Prop
